@@ -36,6 +36,7 @@ pub ghost struct World {
     pub opens: nat,                    // open(2)/opendir attempts issued by us
     pub hard_faults: nat,              // calls that failed for a reason the state does not explain
     pub app_errors: nat,               // errors reported by application callbacks (populate)
+    pub app_not_found: nat,            // ... of which ErrorKind::NotFound ("nothing to compare with")
     pub maintained: nat,               // number of completed prune runs (for C10 ordering)
     pub published: nat,                // number of publish steps (rename/link onto an entry)
     pub listed: nat,                   // directory items returned to us by readdir so far
@@ -160,6 +161,11 @@ pub proof fn lemma_atime_only_trans(a: World, b: World, c: World)
     ensures
         c.atime_only(a),
 {
+}
+
+/// C01 C03 C19: no file's bytes change (inodes are never forgotten by the model, so this covers unlinked files too).
+pub open spec fn bytes_kept(old: World, fin: World) -> bool {
+    forall|i: InodeId| #[trigger] old.inodes.contains_key(i) ==> fin.inodes.contains_key(i) && fin.inodes[i].content == old.inodes[i].content
 }
 
 pub open spec fn under_ro_of(ro_roots: Set<PathV>, p: PathV) -> bool {
@@ -356,6 +362,7 @@ impl World {
         &&& self.now >= old.now
         &&& self.hard_faults >= old.hard_faults
         &&& self.app_errors >= old.app_errors
+        &&& self.app_not_found >= old.app_not_found
         &&& self.steps >= old.steps
         &&& self.opens >= old.opens
         &&& self.published >= old.published
